@@ -35,6 +35,8 @@ MUTANTS = [
  ("revert_D14_init_every_entry", "mosaik/scenario.py", "                for time in range(-int(time_shifted), 0) or [0]:", "                for time in [-int(time_shifted)]:", ["C03"]),
  ("revert_D25_rt_start", "mosaik/scheduler.py", "    for sim in world.sims.values():\n        # A simulator's progress can be advanced by another simulator's\n        # process before its own process has started.\n        sim.rt_start = perf_counter()\n", "", ["C17"]),
  ("evenly_shuffle_once", "mosaik/util.py", "    while pos < src_size:\n        random.shuffle(dest_set)\n        for src, dest in zip(src_set[pos:], dest_set):", "    random.shuffle(dest_set)\n    while pos < src_size:\n        for src, dest in zip(src_set[pos:], dest_set + dest_set[:1]):", ["C18"]),
+ ("progress_forward_delete", "mosaik/progress.py", "        for index in reversed(range(0, len(self._futures))):\n            trigger_spec, future = self._futures[index]", "        for index in range(0, len(self._futures)):\n            if index >= len(self._futures):\n                break\n            trigger_spec, future = self._futures[index]", ["C05"]),
+ ("progress_passed_is_reached", "mosaik/progress.py", "        if needs_to_pass and time_at_dest > target:", "        if needs_to_pass and time_at_dest >= target:", ["C01"]),
 ]
 
 def main():
